@@ -70,6 +70,8 @@ def near(t, thresh):
     close = d < MARGIN
     if thresh == 0:
         close &= (t[f] != 0.0)
+    if thresh < 0 and np.isnan(t).any():
+        return True  # an undefined statistic (0/0) against a negative threshold: bct's convention is 0, the property is silent
     return bool(np.any(close))
 
 
@@ -360,7 +362,7 @@ class _Scn(object):
     def generate(self, sub):
         rnd = random.Random(sub)
         x, y, paired, meta = gen_stacks(rnd, self.nmax)
-        p = {'thresh': rnd.choice((1.0, 1.5, 2.0, 2.5, 3.0)) + rnd.choice((0.0, 0.013, 0.0271)) if rnd.random() < 0.9 else 0, 'k': rnd.randint(5, 40),
+        p = {'thresh': rnd.choice((1.0, 1.5, 2.0, 2.5, 3.0)) + rnd.choice((0.0, 0.013, 0.0271)) if rnd.random() < 0.9 else rnd.choice((0, 0, -0.5)), 'k': rnd.randint(5, 40),
              'tail': rnd.choice(('both', 'left', 'right')), 'paired': paired}
         if rnd.random() < 0.1:
             p['layout'] = 'F'
